@@ -111,6 +111,17 @@ def layouts(chk):
                 rr['t'][0] = 7
                 rr['d'][-1] = 1
         cases.append({'c': c, 'rows': rows})
+    # more than 256 words (not a multiple of 256), and constant trace samples against many non-constant words for n = 3, 5, 6, 7, 9, 10
+    c = dh.base_cfg('cpa', S=1, W=300, wshape=[3, 100])
+    cases.append({'c': c, 'rows': dh.random_rows(rng, c, 4, tmax=15, dvals=list(range(0, 200, 7)))})
+    ddts.append('uint8')
+    for n in (3, 5, 6, 7, 9, 10):
+        c = dh.base_cfg('cpa', S=2, W=6, wshape=[6])
+        rows = dh.random_rows(rng, c, n, tmax=15, dvals=list(range(0, 256, 5)))
+        for rr in rows:
+            rr['t'][0] = 11
+        cases.append({'c': c, 'rows': rows})
+        ddts.append('uint8')
     res = st.cases_run(chk, 'StatsCases', cases, ['KMatchesP'], 'CASES:layout')
     for ci, (case, rs) in enumerate(zip(cases, res)):
         c, rows = case['c'], case['rows']
